@@ -248,6 +248,30 @@ func (fv *FV) callStatic(st *State, ins ssa.CallInstruction, v ssa.Value, callee
 	pos := ins.Pos()
 	name := originName(callee)
 	fv.calleesUsed[name] = true
+	if fv.contract != nil {
+		for i, cs := range fv.contract.CallSites {
+			if cs.Callee == callee.Name() || strings.HasSuffix(name, "."+cs.Callee) {
+				ctx := fv.newSpecCtx(fv.pkgTypes(), st, fv.entry)
+				for k, vv := range fv.params {
+					ctx.vars[k+"0"] = vv
+				}
+				ctx.cellVars = fv.cellVarsOf()
+				blk := fv.curBlock
+				ctx.lookup = func(nm string, ss *State) (SVal, bool) {
+					a := fv.localByName(nm, blk)
+					if a == nil {
+						if vv, ok := fv.params[nm]; ok {
+							return vv, true
+						}
+						return SVal{}, false
+					}
+					elem := a.Type().Underlying().(*types.Pointer).Elem()
+					return SVal{fv.loadLoc(ss, fv.locOf(ss, a)), elem}, true
+				}
+				fv.obligeSpec(st, "callsite", fmt.Sprintf("%s:%s", cs.Callee, clauseLabel(cs.Clause, i)), ctx, cs.Clause, pos, cs.Clause.Props, "callsite clause")
+			}
+		}
+	}
 	// library / special models
 	if m, ok := libModels[name]; ok {
 		if m(fv, st, ins, v, callee, args) {
